@@ -21,7 +21,7 @@ import z3
 from pyvc.registry import reg
 from pyvc.interp import Interp
 from pyvc.interp_ext import LoopSpec
-from pyvc.core import PList, Unsupported, PyvcError, fresh_bool, BuiltinVal, is_sym, _Mut
+from pyvc.core import PList, Unsupported, PyvcError, fresh_bool, BuiltinVal, is_sym, _Mut, same_value
 from pyvc.tmpl import Tmpl, Atom
 from pyvc import source as src
 
@@ -367,14 +367,14 @@ def vc_specialize(target):
             ob(st, f"inv{k}.preserve", "end_leaves_block", inside2 is False, node.lineno)
         elif label == "only_for_listed":
             ob(st, f"inv{k}.preserve", "listed_line_active", ok and len(items) == 1 and items[0] is line, node.lineno)
-            ob(st, f"inv{k}.preserve", "state_kept", inside2 is g["inside"], node.lineno)
+            ob(st, f"inv{k}.preserve", "state_kept", same_value(inside2, g["inside"]), node.lineno)
         elif label == "only_for_other":
             good = ok and len(items) == 1 and isinstance(items[0], Concat) and items[0].parts[0] == "//" and items[0].parts[1] is line and len(items[0].parts) == 2
             ob(st, f"inv{k}.preserve", "unlisted_line_commented_out", good, node.lineno)
-            ob(st, f"inv{k}.preserve", "state_kept", inside2 is g["inside"], node.lineno)
+            ob(st, f"inv{k}.preserve", "state_kept", same_value(inside2, g["inside"]), node.lineno)
         else:
             ob(st, f"inv{k}.preserve", "plain_line_unchanged", ok and len(items) == 1 and items[0] is line, node.lineno, ("C15", "C16"))
-            ob(st, f"inv{k}.preserve", "state_kept", inside2 is g["inside"], node.lineno, ("C15", "C16"))
+            ob(st, f"inv{k}.preserve", "state_kept", same_value(inside2, g["inside"]), node.lineno, ("C15", "C16"))
 
     src_lines = AbsSeq("source_lines")
     src_lines.loop = LoopSpec(init0, head0, alts0, preserve0)
